@@ -68,6 +68,10 @@ func (v Ed25519Verifier) Verify(msg []byte, sig signature.Signature) bool {
 	if sig.Code() != signature.EdDSA {
 		return false
 	}
+	// the declared size must be the size of the raw signature that follows
+	if sig.Size() != uint64(len(sig.Raw())) {
+		return false
+	}
 	return ed25519.Verify(ed25519.PublicKey(v[publicTagSize:]), msg, sig.Raw())
 }
 
